@@ -1044,7 +1044,8 @@ def _run_model(case, ctx):
         # fs, vertical_velocity_mps, decay_exponent left out == the defaults of the signature spelled out
         base = dict(spike=hold(spike), sxy=hold(sxy), wxy=hold(wxy, wlay))
         o1 = ctx.call("C07.model", gen, **base)
-        o2 = ctx.call("C07.model", gen, **base, fs=30000, vertical_velocity_mps=3, decay_exponent=3.0)
+        o2 = ctx.call("C07.model", gen, spike=hold(spike), sxy=hold(sxy), wxy=hold(wxy, wlay), fs=30000,
+                      vertical_velocity_mps=3, decay_exponent=3.0)
         if o1 is ctx.CRASH or o2 is ctx.CRASH:
             return
         if is_waveform(o1, ntr, n, "generate_waveform (defaults)") and is_waveform(o2, ntr, n, "generate_waveform"):
